@@ -104,8 +104,9 @@ CLAIMED.update({
                "lapses or changes owner under a claiming leader in the fast-store environment); in that environment the heartbeat-failure path never gives up a claim, for "
                "every admitted trace (Proofs/SimStable.v; rule 2080); in the lease environment (no timing assumption at all) the watcher path never gives up a claim, whatever "
                "the delay, duplication or order of the notifications (Proofs/SimWatch.v; rule 2082: that path acts only on a readable foreign version newer than the write the "
-               "term rests on, and while an instance holds a claim every newer readable version of its record is its own); the regenerated takeover comparison yields on equal priority. Stability against the other causes "
-               "(no demotion until stop) is decided by the monitor on every fault-free trace, including intervals above 4 s and answers between the fixed time-outs and H/2.", "5.7, 11 and 12", TECH, category="other"),
+               "term rests on, and while an instance holds a claim every newer readable version of its record is its own); in the quiet environment (no connection notification, healthy checks) the grace-period, reconnect-verification and health paths and the acquisition "
+               "rounds never give up a claim (Proofs/SimCauses.v; rules 2083-2085); the regenerated takeover comparison yields on equal priority. Stability against the remaining cause "
+               "(the validation of the fencing token; no demotion until stop) is decided by the monitor on every fault-free trace, including intervals above 4 s and answers between the fixed time-outs and H/2.", "5.7, 11 and 12", TECH, category="other"),
     "C08": sim("Theorem (Coq, counting invariant over all admitted traces): the local callback rules (one promotion per term; a demotion only when one is owed and after the "
                "term's promotion has been entered; the claim raised only when no callback is owed) imply that promotion and demotion callbacks strictly alternate, starting "
                "with a promotion. Rules 2042/2046 of earlier versions (promotion entered while the term is alive) were too strong - a stop landing at the instant of the "
